@@ -57,6 +57,20 @@ def _index_map_corner(doc):
     return rec(doc, False)
 
 
+def _has_elem_prio(doc):
+    """a list element carrying a priority tag of its own"""
+    return any(n['t'] == 'seq' and any(c.get('prio') is not None for c in n['items']) for _, n in emit.walk(doc))
+
+
+def _strip_elem_prio(doc):
+    d = copy.deepcopy(doc)
+    for _, n in emit.walk(d):
+        if n['t'] == 'seq':
+            for c in n['items']:
+                c.pop('prio', None)
+    return d
+
+
 def permute(rng, doc):
     d = copy.deepcopy(doc)
     for _, n in emit.walk(d):
@@ -87,6 +101,21 @@ def gen_case(rng, tier):
     nst = rng.choice([1, 2, 2, 3, 3, 4, 5])
     docs = gen.rand_sequence(rng, nst, rng.choice([2, 3, 4]), kinds=('s',), pool_s=POOL, hostile=False, marker=gen.Marker(), width=3)
     docs = [gen.place_flags(rng, d, p=rng.choice([0.15, 0.3, 0.45]), vocab=('prio', 'del'), on_seq_elems=False, combos=0.15) for d in docs]
+    mixkind = rng.choice(['list_level', 'list_level', 'weak_suffix', 'weak_suffix', 'elem_any']) if rng.random() < 0.3 else None
+    if rng.random() < 0.35 and mixkind != 'weak_suffix':
+        # priority tags on the elements of lists of *scalars* (nested containers with tagged elements are the corner where the
+        # baseline outcome itself is unspecified, see DESIGN.md C04/C15)
+        for d in docs:
+            for _, nd in emit.walk(d):
+                if nd['t'] == 'seq' and nd['items'] and all(c['t'] == 'sc' for c in nd['items']):
+                    for c in nd['items']:
+                        if rng.random() < 0.3 and not emit.has_flags(c):
+                            c['prio'] = rng.choice([1, -1, -1])
+    if rng.random() < 0.03:
+        # canonical shapes of the recorded finding
+        k = rng.choice(POOL)
+        docs = rng.choice([[M([[k, emit.L([emit.S(1009)])]]), M([[k, emit.L([emit.S(0, prio=-1)])]], **{'del': True})],
+                           [M([[k, emit.L([emit.S(300), emit.S(301), emit.S(302, prio=1)])]]), M([[k, emit.L([emit.S(400), emit.S(401)])]])]])
     if rng.random() < 0.25 and len(docs) > 1:
         docs[-1] = gen.add_specials(rng, docs[-1], docs[:-1], p=0.2, kinds=('vdel',))
     forced_sites = []
@@ -113,12 +142,54 @@ def gen_case(rng, tier):
         for c in chain[:-1]:
             cur = dict((k, v) for k, v in cur['items'])[c]
             forced_sites.append((idx, pos[id(cur)]))
+    strict_elem = False
+    if mixkind:
+        # a scalar list meeting an older list of another length; which element competes with what - the element at the same index,
+        # or the list when there is none - must not depend on how often the document is applied.  Priorities sit
+        #   list_level:  on the lists (handed down to the elements; the statement's vocabulary)
+        #   weak_suffix: on single elements of the newer list, lower priorities only as a trailing run, older list untagged, nothing
+        #                deleting above: no element is renumbered before the lists are matched, the law is expected and checked strictly
+        #   elem_any:    on arbitrary elements of either list (the recorded finding's region)
+        from .c16 import put
+        chain = tuple(rng.choice(POOL) for _ in range(rng.choice([1, 1, 2]))) + ('mix',)
+        old = emit.L([emit.S(300 + i) for i in range(rng.randrange(0, 5))])
+        new = emit.L([emit.S(400 + i) for i in range(rng.randrange(1, 6))])
+        if mixkind == 'elem_any':
+            for c in new['items'] + (old['items'] if rng.random() < 0.3 else []):
+                if rng.random() < 0.4:
+                    c['prio'] = rng.choice([-1, -1, 1])
+        elif mixkind == 'weak_suffix':
+            k = rng.randrange(1, len(new['items']) + 1)
+            for c in new['items'][len(new['items']) - k:]:
+                c['prio'] = -1
+            for c in new['items'][:len(new['items']) - k]:
+                if rng.random() < 0.25:
+                    c['prio'] = 1
+            strict_elem = True
+        else:
+            if rng.random() < 0.7:
+                new['prio'] = rng.choice([-1, -1, 1])
+            if rng.random() < 0.4:
+                old['prio'] = rng.choice([-1, 1, 1])
+            if rng.random() < 0.3:
+                new['del'] = False
+        d_old, d_new = emit.M([]), emit.M([])
+        put(d_old, chain, old)
+        put(d_new, chain, new)
+        docs = [d_old] + docs + [d_new] if rng.random() < 0.5 and not strict_elem else [d_old, d_new]
+        if strict_elem and rng.random() < 0.5:
+            docs = [M([['z', emit.S(1)]])] + docs
     style = rng.choice(['flow', 'block'])
     E = lambda d: emit.emit(d, style)
     base = [E(d) for d in docs]
     rel = {}
+    alt = {}
     if not _has_remove_idiom(docs[-1]) and not _index_map_corner(docs[-1]):
         rel['repeat_last'] = [base + [base[-1]]]
+        if any(_has_elem_prio(d) for d in docs) and not strict_elem:
+            # delta for the recorded finding: the same relation with the priority tags taken off the list elements
+            st = [E(_strip_elem_prio(d)) for d in docs]
+            alt['repeat_last'] = [st, st + [st[-1]]]
     rel['insert_empty'] = [base[:i] + ['{}\n'] + base[i:] for i in range(len(base) + 1)]
     rel['permute_keys'] = [[E(permute(rng, d)) for d in docs] for _ in range(3)]
     sites = []
@@ -134,7 +205,7 @@ def gen_case(rng, tier):
     ntags = sum(1 for d in docs for _, x in emit.walk(d) if emit.has_flags(x))
     tops = [set(k for k, _ in d['items']) for d in docs]
     shared = any(tops[i] & tops[j] for i in range(len(tops)) for j in range(i))
-    return {'base': base, 'rel': rel, 'fresh': rng.random() < (0.04 if tier == 'quick' else 0.02), 'nt': bool(ntags and shared)}
+    return {'base': base, 'rel': rel, 'alt': alt, 'fresh': rng.random() < (0.04 if tier == 'quick' else 0.02), 'nt': bool(ntags and shared)}
 
 
 def observe(texts):
@@ -174,7 +245,7 @@ def run(case):
             evals += 1
             feats.append(name)
             if got != base:
-                vio.append({'mech': classify(name, case['base'], v), 'what': f'relation {name} fails: base texts={case["base"]!r} -> {_short(base)}; related texts={v!r} -> {_short(got)}'})
+                vio.append({'mech': classify(name, case), 'what': f'relation {name} fails: base texts={case["base"]!r} -> {_short(base)}; related texts={v!r} -> {_short(got)}'})
                 break
     res = {'status': 'violation' if vio else 'ok', 'nontrivial': case['nt'], 'feats': sorted(set(feats)), 'evals': evals, 'sig': util.sig(case['base'])}
     if vio:
@@ -182,7 +253,15 @@ def run(case):
     return res
 
 
-def classify(name, base_texts, related_texts):
+KNOWN_ELEM = 'list-elements-with-own-priority-compete-after-index-shift'
+
+
+def classify(name, case):
+    """a repeat-last failure is attributed to the recorded finding only if some document has a list element with a priority tag of
+    its own AND the same relation holds once those element tags are taken off (everything else in the sequence unchanged)"""
+    a = case.get('alt', {}).get(name)
+    if name == 'repeat_last' and a and observe(a[0]) == observe(a[1]):
+        return KNOWN_ELEM
     return name
 
 
